@@ -33,6 +33,10 @@ def simple_term(t):
 
 def FA(vs, body, pats):
     """ForAll with patterns when they are admissible (no ite / lambda inside), without otherwise"""
+    for t in pats:
+        ts = t.children() if z3.is_app(t) and t.decl().name() == "pattern" else [t]
+        if not all(simple_term(x) for x in ts):
+            return z3.ForAll(vs, body)          # (asking z3 would print a warning per attempt)
     try:
         return z3.ForAll(vs, body, patterns=pats)
     except z3.Z3Exception:
